@@ -106,4 +106,21 @@ theorem legacy_mysql_comment_counterexample :
     Sql.MysqlComment.extractWith false [47, 42, 33, 49, 50, 51, 42, 47] = .panic ∧
     Sql.MysqlComment.extractWith true [47, 42, 33, 49, 50, 51, 42, 47] = .ok ([49, 50, 51], []) := by decide
 
+/-! ## wire readers and rewriters (proved in `Props/C12.lean`; statements are taken over verbatim) -/
+
+/-- PostgreSQL packet readers (general, database-side, start-up) never panic on any byte string. -/
+theorem pg_read_no_panic : type_of% @C12.pg_read_no_panic := @C12.pg_read_no_panic
+/-- PostgreSQL DataRow parsing and rewriting never panics. -/
+theorem pg_row_no_panic : type_of% @C12.pg_row_no_panic := @C12.pg_row_no_panic
+/-- PostgreSQL Parse and Bind packet readers/rewriters never panic. -/
+theorem pg_parse_bind_no_panic : type_of% @C12.pg_parse_bind_no_panic := @C12.pg_parse_bind_no_panic
+/-- MySQL packet reader never panics. -/
+theorem mysql_read_no_panic : type_of% @C12.mysql_read_no_panic := @C12.mysql_read_no_panic
+/-- MySQL text and binary row processors never panic (truncated rows are rejected). -/
+theorem mysql_row_no_panic : type_of% @C12.mysql_row_no_panic := @C12.mysql_row_no_panic
+/-- MySQL column-definition parser never panics. -/
+theorem mysql_coldef_no_panic : type_of% @C12.coldef_no_panic := @C12.coldef_no_panic
+/-- MySQL COM_STMT_EXECUTE parameter reader/rewriter never panics. -/
+theorem mysql_execute_no_panic : type_of% @C12.mysql_execute_no_panic := @C12.mysql_execute_no_panic
+
 end AcraModel.Props.C14
